@@ -84,3 +84,18 @@ Theorem C04_span_coordinates_mirror : forall segs : list (segsp R), let L := win
   wing_P1 0 (mirror_wing segs) = refl L (wing_P0 0 segs).
 Proof. exact wing_spans_mirror. Qed.
 Print Assumptions C04_span_coordinates_mirror.
+
+(* segment level (Model/QCurve.v): the per-side sign conventions of the dihedral and sweep getters, the unswept section vectors and the
+   lifting-line offset make the left half of a wing the mirror image of the right half, section by section (the quarter-chord curve
+   itself: C12_curve_mirror) *)
+From MuxV Require Import Model.QCurve Proofs.QCurveP.
+Theorem C04_segment_geometry_mirrors : forall dr d s tw di qc off chord ua,
+  (get_dihedral dr true d s = - get_dihedral dr false d s /\ get_sweep dr true d s = - get_sweep dr false d s) /\
+  (unswept_axial cos sin tw (- di) = mirror_y (unswept_axial cos sin tw di) /\
+   unswept_normal cos sin tw (- di) = mirror_y (unswept_normal cos sin tw di)) /\
+  ll_loc (mirror_y qc) off chord (mirror_y ua) = mirror_y (ll_loc qc off chord ua).
+Proof.
+  intros. split; [apply getters_mirror|]. split; [|apply ll_loc_mirror].
+  pose proof (unswept_vectors_mirror tw di) as [H1 [H2 _]]. split; assumption.
+Qed.
+Print Assumptions C04_segment_geometry_mirrors.
